@@ -40,6 +40,7 @@ Classes
 
 import re
 import warnings
+import functools
 import numpy as np
 from scipy import interpolate as interp
 
@@ -1176,7 +1177,8 @@ class Cycles:
         self.mask_conditions = None
 
         self.metrics = dict()
-        self.compute_cycle_metric('is_good', self.phase, is_good, dtype=int)
+        self.compute_cycle_metric('is_good', self.phase,
+                                  functools.partial(is_good, phase_edge=phase_edge), dtype=int)
         if compute_timings:
             self.compute_cycle_timings()
 
